@@ -31,10 +31,11 @@ const (
 	opWaitTD
 	opWaitDestroyed
 	opCtxTeardown
+	opWaitFinEmptyTD
 	nOps
 )
 
-var opNames = [...]string{"tdd", "teardown", "destroy", "rmfin", "addrm", "create", "waitfor-finempty", "waitfor-td", "waitfor-destroyed", "ctx-teardown"}
+var opNames = [...]string{"tdd", "teardown", "destroy", "rmfin", "addrm", "create", "waitfor-finempty", "waitfor-td", "waitfor-destroyed", "ctx-teardown", "waitfor-finempty+td"}
 
 type initial int
 
@@ -111,20 +112,30 @@ func (c *call) run(ctx context.Context, st state.State) {
 		c.ret, c.err = st.WatchFor(ctx, ptr(), state.WithEventTypes(state.Destroyed))
 	case opCtxTeardown:
 		c.tctx, c.err = st.ContextWithTeardown(ctx, ptr())
+	case opWaitFinEmptyTD:
+		c.ret, c.err = st.WatchFor(ctx, ptr(), state.WithFinalizerEmpty(), state.WithPhases(resource.PhaseTearingDown))
 	}
 }
 
-func (c *call) cond() *state.WatchForCondition {
-	var w state.WatchForCondition
+// matches is the harness's own reading of the WatchFor conditions (conjunction of the given ones; a Destroyed event
+// never satisfies "finalizers empty"); deliberately not state.WatchForCondition.Matches, which is code under test.
+func (c *call) matches(ev state.Event) bool {
+	if ev.Resource == nil {
+		return false
+	}
+	finEmpty := ev.Type != state.Destroyed && ev.Resource.Metadata().Finalizers().Empty()
+	td := ev.Resource.Metadata().Phase() == resource.PhaseTearingDown
 	switch c.kind {
 	case opWaitFinEmpty:
-		state.WithFinalizerEmpty()(&w)
+		return finEmpty
 	case opWaitTD:
-		state.WithPhases(resource.PhaseTearingDown)(&w)
+		return td
 	case opWaitDestroyed:
-		state.WithEventTypes(state.Destroyed)(&w)
+		return ev.Type == state.Destroyed
+	case opWaitFinEmptyTD:
+		return finEmpty && td
 	}
-	return &w
+	return false
 }
 
 // states returns S_0..S_n: the state of r after k commits.
@@ -310,17 +321,16 @@ func check(x *explore.X, log *hx.Log, sp *spy, calls []*call) {
 					x.Failf("L1: missed wake-up: %s is blocked at quiescence although the final state is %s", who, hx.Snap(final))
 				}
 			}
-		case opWaitFinEmpty, opWaitTD, opWaitDestroyed:
+		case opWaitFinEmpty, opWaitTD, opWaitDestroyed, opWaitFinEmptyTD:
 			bs, as := sp.before[c.g], sp.after[c.g]
 			if len(bs) == 0 || len(as) == 0 {
 				x.Failf("%s: no watch was established", who)
 				break
 			}
 			lo, up := bs[0], as[0]
-			cond := c.cond()
 			firstMatch := func(k0 int) (resource.Resource, bool) {
 				for _, ev := range eventsFrom(ss[:hi+1], k0) {
-					if m, _ := cond.Matches(ev); m {
+					if c.matches(ev) {
 						return ev.Resource, true
 					}
 				}
@@ -413,12 +423,13 @@ func build(tier string) []explore.Scenario {
 		{opTDD, opRmFin, opAddRm}, {opTDD, opRmFin, opCreate}, {opTDD, opTDD, opRmFin}, {opTDD, opTeardown, opRmFin},
 		{opWaitFinEmpty, opRmFin, opAddRm}, {opWaitTD, opTeardown, opDestroy}, {opWaitDestroyed, opTDD, opRmFin},
 		{opCtxTeardown, opTeardown, opRmFin}, {opCtxTeardown, opDestroy, opCreate}, {opWaitDestroyed, opDestroy, opCreate},
+		{opWaitFinEmptyTD, opRmFin, opTeardown}, {opWaitFinEmptyTD, opTeardown, opAddRm},
 	}
 	if tier == "thorough" {
-		triples = nil
-		for a := opKind(0); a < nOps; a++ {
-			for b := a; b < nOps; b++ {
-				for c := b; c < nOps; c++ {
+		triples = [][]opKind{{opWaitFinEmptyTD, opRmFin, opTeardown}, {opWaitFinEmptyTD, opTeardown, opAddRm}, {opWaitFinEmptyTD, opRmFin, opAddRm}}
+		for a := opKind(0); a < opWaitFinEmptyTD; a++ {
+			for b := a; b < opWaitFinEmptyTD; b++ {
+				for c := b; c < opWaitFinEmptyTD; c++ {
 					block := 0
 					for _, k := range []opKind{a, b, c} {
 						if k == opTDD || k >= opWaitFinEmpty {
@@ -464,7 +475,7 @@ func main() {
 	explore.Main(explore.Config{
 		Property:  "C03",
 		Technique: "stateless model checking of the real lifecycle helpers under a controlled scheduler (iterative preemption bounding), commit-log + modelled-event-sequence oracles evaluated at exact quiescence",
-		Rule:      "one execution per schedule of 2-3 actors (TeardownAndDestroy, Teardown, Destroy, finalizer add/remove, re-create, WatchFor x3 conditions, ContextWithTeardown) on one resource from 4 initial states; non-trivial = schedule differs from the default order in at least one decision",
+		Rule:      "one execution per schedule of 2-3 actors (TeardownAndDestroy, Teardown, Destroy, finalizer add/remove, re-create, WatchFor x4 conditions (one of them a conjunction), ContextWithTeardown) on one resource from 4 initial states; non-trivial = schedule differs from the default order in at least one decision",
 		Assume: []string{
 			"scheduling points before lock acquisitions, channel operations, selects, atomics and ctx.Err reads",
 			"quiescence is exact: no enabled goroutine under the scheduler's shadow state",
